@@ -2131,15 +2131,15 @@ static bool is_const_expr(Node *node) {
     // The right operand is not evaluated if the left one decides.
     if (!is_const_expr(node->lhs))
       return false;
-    return !eval(node->lhs) || is_const_expr(node->rhs);
+    return !eval_truth(node->lhs) || is_const_expr(node->rhs);
   case ND_LOGOR:
     if (!is_const_expr(node->lhs))
       return false;
-    return eval(node->lhs) || is_const_expr(node->rhs);
+    return eval_truth(node->lhs) || is_const_expr(node->rhs);
   case ND_COND:
     if (!is_const_expr(node->cond))
       return false;
-    return is_const_expr(eval(node->cond) ? node->then : node->els);
+    return is_const_expr(eval_truth(node->cond) ? node->then : node->els);
   case ND_COMMA:
     return is_const_expr(node->rhs);
   case ND_NEG:
